@@ -293,11 +293,16 @@ def run_tie(run, pkg, src, n, area):
     lock = open(os.path.join(COQ, '.lock'), 'w')
     fcntl.flock(lock, fcntl.LOCK_EX)        # the tie evaluates its cases with coqc against the compiled .vo files: no concurrent make
     try:
-        try:
-            r = mod.run(src, seed(), n, VERIF)
-        except Exception as e:
-            import traceback
-            run.corr_broken.append('tie_%s failed: %s' % (pkg, traceback.format_exc()[-600:])); return 0, 0, {}, []
+        r = None
+        for attempt in (0, 1):
+            try:
+                r = mod.run(src, seed(), n, VERIF); break
+            except Exception as e:
+                import traceback
+                tb = traceback.format_exc()
+                # a time-out of coqc / a compiled program on an overloaded machine says nothing about the tie: once more, alone
+                if attempt == 0 and ('Timeout' in tb or 'timed out' in tb): continue
+                run.corr_broken.append('tie_%s failed: %s' % (pkg, tb[-600:])); return 0, 0, {}, []
     finally:
         fcntl.flock(lock, fcntl.LOCK_UN); lock.close()
     for m in r.get('impl_vs_spec', [])[:8]:
